@@ -39,6 +39,15 @@
 //    ||M^-1|| |d| <= 1e-4 (otherwise the case is skipped and counted) and ||M|| >= 1:
 //       |X' - M^-1| <= c*cond(M)*eps*||M^-1||*(1+1e-3) + ||M^-1||^2*|d|*(1+1e-3)   =: B'
 //    and the jump |X' - X| between general and fast path is at most B + B'.
+//
+// Strengthenings after the clause audit (findings/audits/audit2.md, C06 S1-S5); details at the functions:
+//  * a second exponent vector: M = diag(2^r) * A * diag(2^e) (oracle_scale2) - rows scaled by different powers of two
+//    change which row holds the largest entry of a column; columns of non-affine matrices graded (stage graded-scaling);
+//  * check_tiny: one entry perturbed by +-2^-k, exact inverse by linearity of det/adj in that entry (stage tiny-entry):
+//    pivoting by magnitude is decisive there, and nearly singular matrices are reached (det = c*2^-k);
+//  * check_overflow: non-zero determinant whose exact cofactor/determinant quotients straddle max (stage overflow-guard):
+//    "a determinant so small that dividing the cofactors by it would overflow" -> the identity;
+//  * check_perturbed also places -0.0 in the affine last column.
 #pragma once
 #include "../engine/exact.hpp"
 #include "../engine/report.hpp"
@@ -67,6 +76,11 @@ struct Stats
     long long singular = 0, nonsingular = 0, det_ge1 = 0, det_lt1 = 0, affine = 0, general = 0, det_subnormal = 0;
     long long gj_prov = 0, gj_unprov = 0, gj_unprov_ident = 0, pert = 0, pert_skipped = 0, pert_singular = 0;
     double    w_inv = 0, w_gj = 0, w_pert = 0, w_jump = 0;
+    // strengthenings (audit2 C06 S1-S5)
+    long long row_scaled = 0, col_graded = 0, negzero = 0;
+    long long ovf_must = 0, ovf_below = 0, ovf_window = 0, ovf_window_ident = 0, ovf_aff_must = 0, ovf_aff_below = 0;
+    long long tiny_well = 0, tiny_near = 0, tiny_near_judged = 0, tiny_ulp = 0, tiny_sing = 0, tiny_general = 0, tiny_affine = 0;
+    double    w_ovf = 0, w_tiny_inv = 0, w_tiny_gj = 0, w_tiny_near = 0;
     // dim: "2x2" / "3x3" / "4x4" — the branch classes are kept per dimension so that "both scaling
     // branches in every dimension" is part of the vacuity check
     void flush (const std::string& tl, const std::string& dim)
@@ -85,6 +99,35 @@ struct Stats
             R ().add ("perturbation_skipped_too_large_relative_to_inverse", pert_skipped);
             R ().add ("perturbation_skipped_singular_base", pert_singular);
         }
+        if (row_scaled) R ().cls ("scaling.rows-scaled-by-different-powers-of-two." + dim, row_scaled);
+        if (col_graded) R ().cls ("scaling.columns-graded-by-different-powers-of-two." + dim, col_graded);
+        if (negzero) R ().cls ("affine-last-column-with-negative-zero", negzero);
+        if (ovf_must + ovf_below + ovf_window)
+        {
+            R ().cls ("overflow-guard.nonzero-det.exact-quotient>=2^(emax+1)." + dim, ovf_must);
+            R ().cls ("overflow-guard.nonzero-det.exact-quotient<max/4." + dim, ovf_below);
+            R ().cls ("overflow-guard.nonzero-det.exact-quotient-in-window[max/4,2^(emax+1))." + dim, ovf_window);
+            R ().add ("overflow_window_cases_returned_identity", ovf_window_ident);
+            if (ovf_aff_must + ovf_aff_below)
+            {
+                R ().cls ("overflow-guard.affine-path.exact-quotient>=2^(emax+1)." + dim, ovf_aff_must);
+                R ().cls ("overflow-guard.affine-path.exact-quotient<max/4." + dim, ovf_aff_below);
+            }
+        }
+        if (tiny_well + tiny_near + tiny_sing)
+        {
+            R ().cls ("tiny-entry.well-conditioned(zero-entry-replaced-by-2^-k)." + dim, tiny_well);
+            R ().cls ("tiny-entry.nearly-singular(det=c*2^-k)." + dim, tiny_near);
+            R ().cls ("tiny-entry.nearly-singular.accuracy-judged(8*cond*eps<=1/4)." + dim, tiny_near_judged);
+            if (tiny_ulp) R ().cls ("tiny-entry.non-zero-entry-moved-by-2^-(digits-2)." + dim, tiny_ulp);
+            if (tiny_affine) R ().cls ("tiny-entry.affine-path." + dim, tiny_affine);
+            R ().cls ("tiny-entry.general-path." + dim, tiny_general);
+            R ().add ("tiny_entry_exactly_singular_not_judged", tiny_sing);
+        }
+        if (w_ovf > 0) R ().note_max ("worst |err|/bound, inverse() with exact quotients below max/4 (" + tl + ")", w_ovf);
+        if (w_tiny_inv > 0) R ().note_max ("worst |err|/bound, inverse() with a 2^-k entry (" + tl + ")", w_tiny_inv);
+        if (w_tiny_gj > 0) R ().note_max ("worst |err|/bound, gjInverse() with a 2^-k entry (" + tl + ")", w_tiny_gj);
+        if (w_tiny_near > 0) R ().note_max ("worst |err|/bound, all forms, nearly singular with 8*cond*eps <= 1/4 (" + tl + ")", w_tiny_near);
         if (w_inv > 0) R ().note_max ("worst |err|/bound, inverse() (" + tl + ")", w_inv);
         if (w_gj > 0) R ().note_max ("worst |err|/bound, gjInverse() (" + tl + ")", w_gj);
         if (w_pert > 0) R ().note_max ("worst |err|/bound, inverse() of one-ulp-perturbed affine matrix (" + tl + ")", w_pert);
@@ -98,6 +141,7 @@ template <int N> struct Oracle
 {
     int  a[N * N];
     int  ce[N];
+    int  re[N]; // row exponents (second scaling vector): M = diag(2^re) * A * diag(2^ce); all zero unless oracle_scale2 is used
     i128 det, adj[N * N];
     bool singular, gj_provable, affine;
     ld   normM, normInv, cond, rabs; // rabs = |det(M)| = |det A| * 2^(sum e)
@@ -130,6 +174,7 @@ template <int N> inline void oracle_base (const int* a, Oracle<N>& O)
 {
     i128 A[N * N];
     for (int i = 0; i < N * N; ++i) { O.a[i] = a[i]; A[i] = a[i]; }
+    for (int i = 0; i < N; ++i) O.re[i] = O.ce[i] = 0;
     ex::adj_exact (A, N, O.adj);
     i128 d = 0;
     for (int j = 0; j < N; ++j) d += A[j] * O.adj[j * N + 0];
@@ -167,11 +212,15 @@ template <int N> inline void oracle_base (const int* a, Oracle<N>& O)
     }
 }
 
-template <int N> inline void oracle_scale (Oracle<N>& O, const int* ce)
+// M = diag(2^re) * A * diag(2^ce):  M^-1 = diag(2^-ce) * adj(A)/det(A) * diag(2^-re), entry (i,j) = adj_ij/det * 2^(-ce_i - re_j).
+// Every term of the determinant, and of any one cofactor, of such an M carries the same power of two (the sum of
+// the row and column exponents involved), so sums of terms stay sums of small integers: the determinant-based
+// paths remain exact on these operands as long as that common exponent keeps the values representable.
+template <int N> inline void oracle_scale2 (Oracle<N>& O, const int* re, const int* ce)
 {
     int sum = 0;
-    for (int i = 0; i < N; ++i) { O.ce[i] = ce[i]; sum += ce[i]; }
-    O.affine = N > 2 && ce[N - 1] == 0 && O.a[N * N - 1] == 1;
+    for (int i = 0; i < N; ++i) { O.ce[i] = ce[i]; O.re[i] = re[i]; sum += ce[i] + re[i]; }
+    O.affine = N > 2 && ce[N - 1] == 0 && re[N - 1] == 0 && O.a[N * N - 1] == 1;
     for (int i = 0; i < N - 1; ++i) if (O.a[i * N + N - 1] != 0) O.affine = false;
     ld ad  = O.det < 0 ? -(ld) O.det : (ld) O.det;
     O.rabs = ldexpl (ad, sum);
@@ -179,7 +228,7 @@ template <int N> inline void oracle_scale (Oracle<N>& O, const int* ce)
     for (int i = 0; i < N; ++i)
     {
         ld s = 0;
-        for (int j = 0; j < N; ++j) s += ldexpl ((ld) (O.a[i * N + j] < 0 ? -O.a[i * N + j] : O.a[i * N + j]), ce[j]);
+        for (int j = 0; j < N; ++j) s += ldexpl ((ld) (O.a[i * N + j] < 0 ? -O.a[i * N + j] : O.a[i * N + j]), ce[j] + re[i]);
         if (s > O.normM) O.normM = s;
     }
     if (!O.singular)
@@ -187,18 +236,24 @@ template <int N> inline void oracle_scale (Oracle<N>& O, const int* ce)
         for (int i = 0; i < N; ++i)
         {
             ld s = 0;
-            for (int j = 0; j < N; ++j) s += (ld) (O.adj[i * N + j] < 0 ? -O.adj[i * N + j] : O.adj[i * N + j]);
+            for (int j = 0; j < N; ++j) s += ldexpl ((ld) (O.adj[i * N + j] < 0 ? -O.adj[i * N + j] : O.adj[i * N + j]), -re[j]);
             s = ldexpl (s / ad, -ce[i]);
             if (s > O.normInv) O.normInv = s;
         }
         O.cond = O.normM * O.normInv;
     }
 }
+template <int N> inline void oracle_scale (Oracle<N>& O, const int* ce)
+{
+    int re[N];
+    for (int i = 0; i < N; ++i) re[i] = 0;
+    oracle_scale2<N> (O, re, ce);
+}
 
 template <class T, int N> inline typename MT<T, N>::M build (const Oracle<N>& O)
 {
     typename MT<T, N>::M m;
-    for (int i = 0; i < N; ++i) for (int j = 0; j < N; ++j) m[i][j] = (T) ldexp ((double) O.a[i * N + j], O.ce[j]);
+    for (int i = 0; i < N; ++i) for (int j = 0; j < N; ++j) m[i][j] = (T) ldexp ((double) O.a[i * N + j], O.ce[j] + O.re[i]);
     return m;
 }
 
@@ -209,7 +264,12 @@ template <int N> inline std::string in_str (const Oracle<N>& O)
     for (int i = 0; i < N * N; ++i) { if (i) s += ","; s += std::to_string (O.a[i]); }
     s += "] column-exponents=[";
     for (int i = 0; i < N; ++i) { if (i) s += ","; s += std::to_string (O.ce[i]); }
-    return s + "] (M = A*diag(2^e)) det(A)=" + ex::to_string (O.det);
+    bool rows = false;
+    for (int i = 0; i < N; ++i) if (O.re[i]) rows = true;
+    if (!rows) return s + "] (M = A*diag(2^e)) det(A)=" + ex::to_string (O.det);
+    s += "] row-exponents=[";
+    for (int i = 0; i < N; ++i) { if (i) s += ","; s += std::to_string (O.re[i]); }
+    return s + "] (M = diag(2^r)*A*diag(2^e)) det(A)=" + ex::to_string (O.det);
 }
 template <class M> inline std::string mstr (const M& m, int N)
 {
@@ -220,7 +280,7 @@ template <class M> inline std::string mstr (const M& m, int N)
 template <int N> inline std::string exact_str (const Oracle<N>& O)
 {
     std::string s = "adj/det*2^-e_i: [";
-    for (int i = 0; i < N * N; ++i) { if (i) s += ","; s += ex::Rat (O.adj[i], O.det).str () + "*2^" + std::to_string (-O.ce[i / N]); }
+    for (int i = 0; i < N * N; ++i) { if (i) s += ","; s += ex::Rat (O.adj[i], O.det).str () + "*2^" + std::to_string (-O.ce[i / N] - O.re[i % N]); }
     return s + "]";
 }
 template <class T> inline std::string mname (int N, const std::string& rest)
@@ -246,7 +306,7 @@ template <class M> inline bool is_identity (const M& x, int N)
     return true;
 }
 
-// largest |X_ij - exact_ij| / unit, exact = adj/det * 2^-e_i ; +inf if any entry is NaN/inf
+// largest |X_ij - exact_ij| / unit, exact = adj/det * 2^(-e_i - r_j) ; +inf if any entry is NaN/inf
 template <class T, int N> inline ld max_err (const typename MT<T, N>::M& X, const Oracle<N>& O)
 {
     ld d  = (ld) O.det, ad = d < 0 ? -d : d, worst = 0;
@@ -255,7 +315,7 @@ template <class T, int N> inline ld max_err (const typename MT<T, N>::M& X, cons
         {
             ld x = (ld) X[i][j];
             if (!(fabsl (x) <= (ld) std::numeric_limits<T>::max ())) return HUGE_VALL;
-            ld e = fabsl (x * d - ldexpl ((ld) O.adj[i * N + j], -O.ce[i])) / ad;
+            ld e = fabsl (x * d - ldexpl ((ld) O.adj[i * N + j], -O.ce[i] - O.re[j])) / ad;
             if (e > worst) worst = e;
         }
     return worst;
@@ -314,6 +374,12 @@ template <class T, int N> inline typename MT<T, N>::M check_forms (const Oracle<
     (O.singular ? s.singular : s.nonsingular)++;
     const bool detbased = N < 4 || O.affine;
     if (N > 2) (O.affine ? s.affine : s.general)++;
+    {
+        bool rs = false, cg = false;
+        for (int i = 1; i < N; ++i) { if (O.re[i] != O.re[0]) rs = true; if (O.ce[i] != O.ce[0] && !(O.affine && i == N - 1)) cg = true; }
+        if (rs) ++s.row_scaled;
+        if (cg) ++s.col_graded;
+    }
     if (detbased && !O.singular) (O.rabs >= 1 ? s.det_ge1 : s.det_lt1)++;
     const std::string path = N == 2 ? "" : (O.affine ? ".affine-path" : ".general-path");
     M X = m.inverse ();
@@ -344,9 +410,11 @@ template <class T, int N> inline void check_perturbed (const Oracle<N>& O, Stats
     const T  dm  = std::numeric_limits<T>::denorm_min (), e = std::numeric_limits<T>::epsilon ();
     for (int row = 0; row < N; ++row)
     {
-        T   vals[4];
+        T   vals[5];
         int nv;
-        if (row < N - 1) { vals[0] = dm; vals[1] = -dm; vals[2] = e; vals[3] = -e; nv = 4; }
+        // -0.0 compares equal to 0: the matrix is numerically the same affine matrix (delta = 0), whichever path a
+        // re-implementation of the affine test sends it down the result must stay within the bound of the fast-path result
+        if (row < N - 1) { vals[0] = dm; vals[1] = -dm; vals[2] = e; vals[3] = -e; vals[4] = -(T) 0; nv = 5; }
         else { vals[0] = (T) 1 + e; vals[1] = (T) 1 - e / 2; nv = 2; }
         for (int v = 0; v < nv; ++v)
         {
@@ -383,10 +451,220 @@ template <class T, int N> inline void check_perturbed (const Oracle<N>& O, Stats
             M Y = mp;
             Y.invert ();
             if (!bitsame (Y, Xp, N)) R ().fail (mname<T> (N, "::invert.vs-inverse"), in_str (O) + " then M[" + std::to_string (row) + "][" + std::to_string (N - 1) + "]=" + vf::fmt (vals[v]), mstr (Xp, N), mstr (Y, N));
-            ++s.pert;
+            if (delta == 0) ++s.negzero; else ++s.pert;
             s.tr += 2;
         }
     }
+}
+
+
+// Gauss-Jordan forms of the tiny-entry stage (3x3, 4x4 only)
+template <class T, int N, class J, class I> inline void tiny_gj (const Matrix22<T>&, J&, I&, Stats&) {}
+template <class T, int N, class M, class J, class I> inline void tiny_gj (const M& m, J& jd, I& input, Stats& s)
+{
+    M G = m.gjInverse ();
+    jd (G, "::gjInverse", s.w_tiny_gj);
+    M G2 = m.gjInverse (false);
+    if (!bitsame (G2, G, N)) jd (G2, "::gjInverse(bool)", s.w_tiny_gj);
+    M        Y = m;
+    const M& r = Y.gjInvert ();
+    if (!bitsame (Y, G, N) || &r != &Y) R ().fail (mname<T> (N, "::gjInvert.vs-gjInverse"), input (), mstr (G, N), mstr (Y, N));
+    M        Z  = m;
+    const M& r2 = Z.gjInvert (false);
+    if (!bitsame (Z, G2, N) || &r2 != &Z) R ().fail (mname<T> (N, "::gjInvert(bool).vs-gjInverse(bool)"), input (), mstr (G2, N), mstr (Z, N));
+    s.tr += 4;
+}
+
+// ---- S1: non-zero determinant whose cofactor/determinant quotients overflow ---------------------------
+// Statement: "a determinant so small that dividing the cofactors by it would overflow" is a singular outcome: the
+// non-throwing determinant-based forms return the identity.  Operands M = diag(2^re) A diag(2^ce) with every
+// entry, every cofactor and the determinant exactly representable (checked by exact_operands), so the library's
+// cofactors and determinant are the exact ones and each quotient is one rounding of adj_ij/det * 2^(-ce_i-re_j).
+//   Q = max exact |quotient| over the quotients the determinant-based path forms (affine path: the block).
+//   Q >= 2^(emax+1) (exceeds every finite number of the type)         -> exactly the identity is demanded;
+//   every exact inverse entry < max/4 (C07: guards fire only within a factor four of max; here it only selects
+//   the cases where a finite result is required)                          -> the usual accuracy bound, hence finite;
+//   in between                                                            -> the identity, or a finite result within the bound.
+// Gauss-Jordan has no documented overflow guard: gjInverse and the non-affine Matrix44::inverse are not run here.
+template <class T> struct Lim
+{
+    static ld  hi () { return ldexpl (1, std::numeric_limits<T>::max_exponent); }
+    static ld  lo () { return (ld) std::numeric_limits<T>::max () / 4; }
+    static int emin_sub () { return std::numeric_limits<T>::min_exponent - std::numeric_limits<T>::digits; }
+    static int guard_exp () { return std::numeric_limits<T>::max_exponent - 2; } // 1/min = 2^126 / 2^1022
+};
+template <class T, int N> inline bool exact_operands (const Oracle<N>& O)
+{
+    int Rs = 0, Cs = 0;
+    for (int i = 0; i < N; ++i) { Rs += O.re[i]; Cs += O.ce[i]; }
+    const int lo = Lim<T>::emin_sub (), hi = std::numeric_limits<T>::max_exponent - 12;
+    if (Rs + Cs < lo || Rs + Cs > hi) return false;
+    for (int i = 0; i < N; ++i)
+        for (int j = 0; j < N; ++j)
+        {
+            int e = O.re[i] + O.ce[j], c = Rs + Cs - O.re[j] - O.ce[i];
+            if (e < lo || e > hi || c < lo || c > hi) return false;
+        }
+    return true;
+}
+template <class T, int N> inline void check_overflow (const Oracle<N>& O, Stats& s)
+{
+    typedef typename MT<T, N>::M M;
+    if (O.singular) return;
+    if (N == 4 && !O.affine) return;
+    if (!exact_operands<T, N> (O)) { R ().fail ("harness.overflow-stage-operand-not-exact", in_str (O), "all entries, cofactors and the determinant representable", "exponent out of range"); return; }
+    M m = build<T, N> (O);
+    ++s.st;
+    const int nb = O.affine ? N - 1 : N;
+    ld ad = O.det < 0 ? -(ld) O.det : (ld) O.det, qdiv = 0, qall = 0;
+    for (int i = 0; i < N; ++i)
+        for (int j = 0; j < N; ++j)
+        {
+            ld q = ldexpl ((ld) (O.adj[i * N + j] < 0 ? -O.adj[i * N + j] : O.adj[i * N + j]) / ad, -O.ce[i] - O.re[j]);
+            if (q > qall) qall = q;
+            if (i < nb && j < nb && q > qdiv) qdiv = q;
+        }
+    const bool must = qdiv >= Lim<T>::hi (), below = qall < Lim<T>::lo ();
+    if (must) { ++s.ovf_must; if (O.affine) ++s.ovf_aff_must; }
+    else if (below) { ++s.ovf_below; if (O.affine) ++s.ovf_aff_below; }
+    else ++s.ovf_window;
+    const std::string path = N == 2 ? "" : (O.affine ? ".affine-path" : ".general-path");
+    const ld B = C_BOUND * O.cond * ex::eps<T> () * O.normInv;
+    auto jd = [&] (const M& X, const std::string& form, bool count) {
+        const bool ident = is_identity (X, N);
+        if (must)
+        {
+            if (!ident)
+                R ().fail (mname<T> (N, form + ".overflowing-quotient-not-identity"), in_str (O),
+                           "identity (exact max |cofactor/determinant| = " + vf::fmt (qdiv) + " >= 2^" + std::to_string (std::numeric_limits<T>::max_exponent) + ")", mstr (X, N));
+            return;
+        }
+        ld e = max_err<T, N> (X, O);
+        if (below)
+        {
+            if (!(e <= B))
+                R ().fail (mname<T> (N, form + ".tiny-determinant.accuracy"), in_str (O), exact_str (O) + " each within " + vf::fmt (B) + " (max |exact entry| = " + vf::fmt (qall) + " < max/4)",
+                           mstr (X, N) + " max error " + vf::fmt (e));
+            else if ((double) (e / B) > s.w_ovf) s.w_ovf = (double) (e / B);
+        }
+        else
+        {
+            if (ident) { if (count) ++s.ovf_window_ident; }
+            else if (!(e <= B))
+                R ().fail (mname<T> (N, form + ".near-overflow.neither-identity-nor-accurate"), in_str (O), "identity, or " + exact_str (O) + " each within " + vf::fmt (B), mstr (X, N) + " max error " + vf::fmt (e));
+        }
+    };
+    M X = m.inverse ();
+    jd (X, "::inverse" + path, true);
+    M X2 = m.inverse (false);
+    if (!bitsame (X2, X, N)) jd (X2, "::inverse(bool)" + path, false);
+    M        Y = m;
+    const M& r = Y.invert ();
+    if (!bitsame (Y, X, N) || &r != &Y) R ().fail (mname<T> (N, "::invert.vs-inverse"), in_str (O), mstr (X, N), mstr (Y, N));
+    M        Z  = m;
+    const M& r2 = Z.invert (false);
+    if (!bitsame (Z, X2, N) || &r2 != &Z) R ().fail (mname<T> (N, "::invert(bool).vs-inverse(bool)"), in_str (O), mstr (X2, N), mstr (Z, N));
+    s.tr += 4;
+}
+
+// ---- tiny entry: one entry of a lattice matrix perturbed by +-2^-k (a zero entry replaced, or a non-zero entry moved
+// by one or two ulps: k = digits-2) -----------------------------------------------------------------------------
+// M = A + sg*2^-k*E_pq.  Determinant and adjugate are affine functions of a single entry, so with
+// (adj1, det1) those of A + E_pq:   adj(M) = adj + sg*2^-k*(adj1-adj),  det(M) = det + sg*2^-k*(det1-det), and
+//   (M^-1)_ij = NUM_ij / DEN,  NUM_ij = adj_ij*2^k + sg*(adj1_ij-adj_ij),  DEN = det*2^k + sg*(det1-det)   (exact, __int128).
+// The lattice x power-of-two scalings of the other stages commute exactly with an elimination that does not pivot by
+// magnitude; these operands do not: a pivot search that takes the first non-zero entry divides by 2^-k and loses
+// the O(1) entries of the other rows (k >= digits), while the matrix is as well conditioned as A.
+//  * det(A) != 0 (cond of the order of cond(A)): all eight forms within C_BOUND*cond*eps*||M^-1|| of NUM/DEN.  NUM/DEN
+//    is evaluated in long double (relative 2^-62) and norms likewise, so the bound is widened by the factor 1+2^-10.
+//  * det(A) == 0, DEN != 0 (nearly singular: |det M| = |det1-det|*2^-k, cond ~ 2^k): the same bound wherever first-order
+//    error analysis applies, C_BOUND*cond*eps <= 1/4 (the smaller k; returning the identity for such a matrix, as a
+//    relative-tolerance singularity test would, is an error of ||M^-1||, four times the bound); for larger cond
+//    (below 1/eps^2) only the statement's "no infinities or NaNs" is demanded.
+//  * DEN == 0: exactly singular, but cofactor sums are not exact on these operands: nothing demanded (counted).
+template <class T, int N> inline void check_tiny (const int* a, const i128* adj0, i128 det0, int p, int q, int sg, int k, Stats& s)
+{
+    typedef typename MT<T, N>::M M;
+    i128 A1[N * N], adj1[N * N];
+    for (int i = 0; i < N * N; ++i) A1[i] = a[i];
+    A1[p * N + q] += 1;
+    ex::adj_exact (A1, N, adj1);
+    i128 det1 = 0;
+    for (int j = 0; j < N; ++j) det1 += A1[j] * adj1[j * N + 0];
+    const i128 two_k = (i128) 1 << k;
+    const i128 DEN   = det0 * two_k + sg * (det1 - det0);
+    if (DEN == 0) { ++s.tiny_sing; return; }
+    const bool near = det0 == 0;
+    M m;
+    for (int i = 0; i < N; ++i) for (int j = 0; j < N; ++j) m[i][j] = (T) a[i * N + j];
+    m[p][q] = (T) ((double) a[p * N + q] + ldexp ((double) sg, -k)); // exact: a = 0, or |a| <= 2 and k <= digits-2
+    if (a[p * N + q] != 0) ++s.tiny_ulp;
+    ++s.st;
+    (near ? s.tiny_near : s.tiny_well)++;
+    bool affine = N > 2 && m[N - 1][N - 1] == 1;
+    for (int i = 0; i < N - 1; ++i) if (m[i][N - 1] != 0) affine = false;
+    (affine ? s.tiny_affine : s.tiny_general)++;
+    ld exact[N * N], normM = 0, normInv = 0;
+    const ld den = (ld) DEN;
+    for (int i = 0; i < N; ++i)
+    {
+        ld rm = 0, ri = 0;
+        for (int j = 0; j < N; ++j)
+        {
+            exact[i * N + j] = (ld) (adj0[i * N + j] * two_k + sg * (adj1[i * N + j] - adj0[i * N + j])) / den;
+            ri += fabsl (exact[i * N + j]);
+            rm += fabsl ((ld) m[i][j]);
+        }
+        if (rm > normM) normM = rm;
+        if (ri > normInv) normInv = ri;
+    }
+    const ld eps = ex::eps<T> (), cond = normM * normInv;
+    const ld B = C_BOUND * cond * eps * normInv * (1 + ldexpl (1, -10));
+    if (near && C_BOUND * cond * eps <= 0.25L) ++s.tiny_near_judged;
+    auto input = [&] () {
+        std::string t = "A=[";
+        for (int i = 0; i < N * N; ++i) { if (i) t += ","; t += std::to_string (a[i]); }
+        return t + "] then M[" + std::to_string (p) + "][" + std::to_string (q) + "]" + (a[p * N + q] ? "+=" : "=") + (sg < 0 ? "-" : "") + "2^-" + std::to_string (k) + " det(A)=" + ex::to_string (det0) + " cond_inf(M)=" + vf::fmt (cond);
+    };
+    auto jd = [&] (const M& X, const std::string& form, double& worst) {
+        ld   e = 0;
+        bool finite = true;
+        for (int i = 0; i < N; ++i)
+            for (int j = 0; j < N; ++j)
+            {
+                ld x = (ld) X[i][j];
+                if (!(fabsl (x) <= (ld) std::numeric_limits<T>::max ())) { finite = false; continue; }
+                ld d = fabsl (x - exact[i * N + j]);
+                if (d > e) e = d;
+            }
+        if (near)
+        {
+            if (C_BOUND * cond * eps <= 0.25L)
+            {
+                if (!finite || !(e <= B))
+                    R ().fail (mname<T> (N, form + ".nearly-singular.accuracy"), input (), "exact inverse (NUM/DEN) each within " + vf::fmt (B) + " (8*cond*eps*||inv||)", mstr (X, N) + " max error " + (finite ? vf::fmt (e) : std::string ("non-finite")));
+                else if ((double) (e / B) > s.w_tiny_near) s.w_tiny_near = (double) (e / B);
+            }
+            else if (!finite && cond * eps * eps < 1) R ().fail (mname<T> (N, form + ".nearly-singular.nonfinite"), input (), "finite entries (cond < 1/eps^2)", mstr (X, N));
+            return;
+        }
+        if (!finite || !(e <= B))
+            R ().fail (mname<T> (N, form + ".tiny-entry.accuracy"), input (), "exact inverse (NUM/DEN) each within " + vf::fmt (B) + " (8*cond*eps*||inv||)", mstr (X, N) + " max error " + (finite ? vf::fmt (e) : std::string ("non-finite")));
+        else if ((double) (e / B) > worst) worst = (double) (e / B);
+    };
+    const std::string path = N == 2 ? "" : (affine ? ".affine-path" : ".general-path");
+    M X = m.inverse ();
+    jd (X, "::inverse" + path, s.w_tiny_inv);
+    M X2 = m.inverse (false);
+    if (!bitsame (X2, X, N)) jd (X2, "::inverse(bool)" + path, s.w_tiny_inv);
+    M        Y = m;
+    const M& r = Y.invert ();
+    if (!bitsame (Y, X, N) || &r != &Y) R ().fail (mname<T> (N, "::invert.vs-inverse"), input (), mstr (X, N), mstr (Y, N));
+    M        Z  = m;
+    const M& r2 = Z.invert (false);
+    if (!bitsame (Z, X2, N) || &r2 != &Z) R ().fail (mname<T> (N, "::invert(bool).vs-inverse(bool)"), input (), mstr (X2, N), mstr (Z, N));
+    s.tr += 4;
+    tiny_gj<T, N> (m, jd, input, s);
 }
 
 template <class T> void run ();
